@@ -85,6 +85,19 @@ func T1(maxVariantsPerSeed int) (texts []TextCase, seedOf map[string]string) {
 		}
 	}
 	seeds = append(seeds, t1Whole...)
+	// every ASCII letter in every case-insensitive construct, in both cases (one text each, no
+	// spelling variants: what matters here is the letter)
+	nBase := len(seeds)
+	for c := 'a'; c <= 'z'; c++ {
+		u := c - 'a' + 'A'
+		for _, body := range []string{
+			fmt.Sprintf(`"%c"`, c), fmt.Sprintf(`"%c"`, u), fmt.Sprintf(`"x%cy"`, c),
+			fmt.Sprintf(`[[%c]]`, c), fmt.Sprintf(`[[%c]]`, u),
+			fmt.Sprintf(`[[a-%c]]`, c), fmt.Sprintf(`[[%c-z]]`, c), fmt.Sprintf(`[[A-%c]]`, u), fmt.Sprintf(`[[%c-Z]]`, u), fmt.Sprintf(`[[^%c]]`, c),
+		} {
+			seeds = append(seeds, t1Frames[0].pre+body+t1Frames[0].post)
+		}
+	}
 	seen := map[string]bool{}
 	add := func(id, text, seed string) {
 		if seen[text] {
@@ -102,6 +115,9 @@ func T1(maxVariantsPerSeed int) (texts []TextCase, seedOf map[string]string) {
 		}
 		base := ag.Show(f.Grammar)
 		n := 0
+		if si >= nBase {
+			continue
+		}
 		for _, off := range f.Boundaries {
 			for _, fill := range t1Fillers {
 				if maxVariantsPerSeed > 0 && n >= maxVariantsPerSeed {
